@@ -305,6 +305,13 @@ func (x *Exec) frameCheck(st *State, heap, ref, guard, where string, rng ...stri
 	if x.root == nil || x.root.contract == nil || len(x.root.contract.Assigns) == 0 {
 		return
 	}
+	for _, cl := range x.root.contract.Assigns {
+		if hasTag(cl.Tags, "assume") {
+			// a frame that callers may rely on but that is not checked against the body (listed as an assumption)
+			x.c.note("assumption: frame of %s taken without proof: assigns %s", x.root.fn, cl.Text)
+			return
+		}
+	}
 	allowed := []string{fmt.Sprintf("(>= %s %s)", ref, x.rootW0)}
 	if strings.HasPrefix(heap, "E:") {
 		allowed = append(allowed, eq(ref, "0")) // a nil slice has no elements to write
